@@ -138,6 +138,9 @@ def main():
     if out.strip():
         print("refusing: /repo has uncommitted changes"); sys.exit(2)
     results = []
+    import shutil, tempfile
+    bak = tempfile.mkdtemp()
+    shutil.copytree(os.path.join(VERIF, "evidence"), os.path.join(bak, "evidence"))
     for m in M:
         if only and m["id"] not in only: continue
         path = os.path.join(REPO, m["file"])
@@ -170,6 +173,8 @@ def main():
         finally:
             sh(f"git -C {REPO} checkout -- .")
         results.append(entry)
+    # the evidence files must keep describing runs on the unchanged tree
+    shutil.rmtree(os.path.join(VERIF, "evidence")); shutil.copytree(os.path.join(bak, "evidence"), os.path.join(VERIF, "evidence")); shutil.rmtree(bak)
     json.dump(results, open(os.path.join(VERIF, "selftest", "mutants_result.json"), "w"), indent=1)
     missed = [r["id"] for r in results if "checks" in r and not any(c["caught"] for c in r["checks"].values())]
     print("missed by every listed check:", missed)
